@@ -80,7 +80,7 @@ class CallGraph:
         fam = self.ty.tree_family(cname)
         return fam if fam in self.families else None
 
-    def _contextualise(self, caller, callee, recv):
+    def _contextualise(self, caller, callee, recv, kind='call'):
         """Map a callee to its receiver-family clone (Tree methods), or drop it (an override of another family reached from a
         family-bound Tree clone).  -> FuncInfo or None"""
         ctx = getattr(caller, 'ctx_family', None)
@@ -94,6 +94,11 @@ class CallGraph:
                 fam = ctx
             elif rfam is not None:
                 fam = rfam
+            if fam is not None and kind != 'super':
+                head = self.sm.get_class(fam)
+                if head is not None and (callee.name in head.methods or (callee.is_setter and callee.name in head.setters)) \
+                        and not (callee.is_setter and callee.name not in head.setters):
+                    return None       # the family's head class overrides this Tree method: objects of the family never run Tree's version
             if fam is not None and (callee, fam) in self.clones:
                 return self.clones[(callee, fam)]
             return callee
@@ -106,7 +111,7 @@ class CallGraph:
     def _add(self, caller, node, callee, kind, resolved=True, recv=None):
         if callee is None:
             return
-        callee = self._contextualise(caller, callee, recv)
+        callee = self._contextualise(caller, callee, recv, kind)
         if callee is None:
             return
         e = Edge(caller, node, callee, kind, resolved, recv)
